@@ -4,6 +4,7 @@ Property theorems only; the model is `Model/Database.lean`, the regenerated tabl
 -/
 import PrimaiteModel.Model.Database
 import PrimaiteModel.Gen.Database
+import PrimaiteModel.Gen.DatabaseTr
 import PrimaiteModel.Lemmas.DatabaseReach
 namespace Primaite.Database
 
@@ -1152,6 +1153,100 @@ theorem C17_unavailable_connect_query (st : State) (i : Nat)
       · simp [hs]
   · intro cid q
     simp [State.rawQuery, hs]
+
+/-! ## 9. The translated source equals the model (`Gen/DatabaseTr.lean`, harness/extract/database_tr.py)
+
+`_process_sql`, `_process_connect` and `IOSoftware.add_connection` are translated statement by statement from the source on
+every run; the theorems below prove the translated functions equal to the hand-written model for every server state and
+every argument.  A changed guard, operator, status code, branch order or written value in the source changes the generated
+definition and these proofs stop checking. -/
+
+set_option linter.unusedSimpArgs false in
+/-- `_process_sql` as translated = the model's `processSql`, and an answer carries the query's uuid (which is what the
+client counts as success) exactly when its status is 200. -/
+theorem C17_tr_process_sql (s : Server) (q : Sql) :
+    ((Gen.DatabaseTr.processSql s q).1, (Gen.DatabaseTr.processSql s q).2.1) = processSql s q ∧
+    (Gen.DatabaseTr.processSql s q).2.2 = ((Gen.DatabaseTr.processSql s q).2.1 == 200) := by
+  unfold Gen.DatabaseTr.processSql processSql
+  cases hf : s.file with
+  | none => simp
+  | some fh =>
+    by_cases hh : s.health = .good
+    · cases q <;> cases fh <;> simp [hh]
+    · simp [hh]
+
+set_option linter.unusedSimpArgs false in
+/-- `_process_connect` (with `add_connection` inlined) as translated = the model's `processConnect`, for every server
+state in which the id about to be issued is not in the table (uuid4 freshness; `C17_tr_fresh_of_wf`); the id is visible
+to the client only when `response` is true, and `response` is `status_code == 200`. -/
+theorem C17_tr_process_connect (s : Server) (owner : Nat) (pw : Option Nat) (hfresh : s.hasConn s.nextId = false) :
+    ((Gen.DatabaseTr.processConnect s owner pw).1, (Gen.DatabaseTr.processConnect s owner pw).2.1,
+      if (Gen.DatabaseTr.processConnect s owner pw).2.2.1 then (Gen.DatabaseTr.processConnect s owner pw).2.2.2 else none)
+      = processConnect s owner pw ∧
+    (Gen.DatabaseTr.processConnect s owner pw).2.2.1 = ((Gen.DatabaseTr.processConnect s owner pw).2.1 == 200) := by
+  unfold Gen.DatabaseTr.processConnect Gen.DatabaseTr.addConnection processConnect healthAcceptsConnect
+  have hfresh' : Server.hasConn { s with nextId := s.nextId + 1 } s.nextId = false := hfresh
+  by_cases h1 : s.op = .running
+  · by_cases h3 : s.password = pw
+    · by_cases h4 : s.maxSessions ≤ s.conns.length
+      · cases hh : s.health <;> simp [h1, h3, h4, hh]
+      · cases hh : s.health <;> simp [h1, h3, h4, hh, hfresh', Server.hasConn] <;> simp_all [Server.hasConn]
+    · cases hh : s.health <;> simp [h1, h3, hh]
+  · simp [h1]
+
+/-- The freshness hypothesis holds in every well-formed state, hence (`C17_table_wellformed_run`) along every run. -/
+theorem C17_tr_fresh_of_wf (s : Server) (h : s.WF) : s.hasConn s.nextId = false := by
+  cases hh : s.hasConn s.nextId with
+  | false => rfl
+  | true =>
+    have : ∃ c ∈ s.conns, c.id = s.nextId := by simpa [Server.hasConn, List.any_eq_true] using hh
+    obtain ⟨c, hcm, hid⟩ := this
+    exact absurd (h.1 c hcm) (by omega)
+
+/-! ## 10. Deepening: shut-down duration 0, the data-manipulation bot -/
+
+/-- With shut-down duration 0 a power-off takes the database host straight to OFF and stops the service at once: from
+that moment the service cannot act (so `C17_unavailable_*` apply); table and data are untouched. -/
+theorem C17_power_off_immediate (s : Server) (h : s.node.downDur = 0) :
+    s.powerOff.node.st = .off ∧ s.powerOff.canAct = false ∧ s.powerOff.conns = s.conns ∧ s.powerOff.file = s.file := by
+  unfold Server.powerOff Node.powerOff Server.shutDown Server.canAct Node.isOn
+  simp only [h, if_true]
+  by_cases hi : s.installed = true <;> simp [hi]
+
+/-- The bot reaches stage PORT_SCAN only from PORT_SCAN, or from NOT_STARTED / LOGON with a successful port-scan trial. -/
+theorem C17_dm_stage (stage : Nat) (scan : Bool) :
+    (dmAdvance stage scan = 2 ↔ (stage = 2 ∨ ((stage = 0 ∨ stage = 1) ∧ scan = true))) := by
+  unfold dmAdvance
+  by_cases h0 : stage = 0
+  · subst h0; cases scan <;> simp
+  · by_cases h1 : stage = 1
+    · subst h1; cases scan <;> simp
+    · cases scan <;> simp [h0, h1]
+
+/-- **Kill chain gating.**  `DataManipulationBot.attack()` sends nothing to the database unless the stage machine is in
+PORT_SCAN after this call's logon / port-scan steps AND the data-manipulation trial succeeds; otherwise the server is
+unchanged.  (When it does send, it is one `get_new_connection` and one `handle.query`: `dmAttack_reach`, so every
+sequence theorem above covers the bot.) -/
+theorem C17_dm_gated (st : State) (i : Nat) (q : Sql) (scan atk : Bool) (c : Client) (hc : st.client? i = some c)
+    (h : ¬ (dmAdvance c.dmStage scan = 2 ∧ atk = true)) : (st.dmAttack i q scan atk).1.srv = st.srv := by
+  unfold State.dmAttack
+  simp only [hc]
+  split
+  · rfl
+  · split
+    · rfl
+    · split
+      · rfl
+      · simp [h]
+
+example : (run ({ clients := [{ dmInstalled := true, dmApp := .running }] } : State)
+    [.dm 0 .delete true true false]).srv.file = some .compromised := by decide
+example : (run ({ clients := [{ dmInstalled := true, dmApp := .running }] } : State)
+    [.dm 0 .delete false true false, .dm 0 .delete true false false]).srv.file = some .good := by decide
+example : (run ({ srv := { node := { downDur := 0 } }, clients := [{}] } : State) [.power 0 false, .connect 0]).srv.conns = [] := by decide
+example : (run ({ srv := { backupConfigured := false } } : State) [.backup true, .restore true true]).bk.stored = none := by decide
+example : (run ({ clients := [{}] } : State) [.admin .coInstall, .connect 0]).srv.conns = [] := by decide
+example : (run ({ clients := [{}] } : State) [.backup true, .rawQuery 0 none .select, .admin (.ftpc .stop), .restore true true]).srv.downloads = none := by decide
 
 example : ({ srv := { op := .stopped }, clients := [{}] } : State).srv.canAct = false := by decide
 example : (run ({ srv := { op := .stopped }, clients := [{}] } : State) [.connect 0, .rawQuery 0 (some 0) .delete, .restore true true]).srv
